@@ -1313,7 +1313,37 @@ func (it *stringIter) next() Tuple {
 func (m *Machine) rangeIter(x Value, t types.Type) iter {
 	switch x := x.(type) {
 	case *OMap:
-		keys := m.orderKeys(x.Keys())
+		ks := x.Keys()
+		if m.AllOrders && m.OrderOncePerMap && len(ks) >= 2 {
+			// one iteration order per map object and path: a repeated range over the same map (same
+			// size) sees the order chosen the first time, so forks do not multiply with every traversal
+			type cached struct{ perm []int }
+			key := struct {
+				o *OMap
+				n int
+			}{x, len(ks)}
+			if c, ok := m.Scratch[key].(cached); ok {
+				out := make([]Value, len(ks))
+				for i, j := range c.perm {
+					out[i] = ks[j]
+				}
+				return &mapIter{m: m, o: x, keys: out}
+			}
+			idx := make([]Value, len(ks))
+			for i := range idx {
+				idx[i] = int64(i)
+			}
+			chosen := m.orderKeys(idx)
+			perm := make([]int, len(ks))
+			out := make([]Value, len(ks))
+			for i, v := range chosen {
+				perm[i] = int(v.(int64))
+				out[i] = ks[perm[i]]
+			}
+			m.Scratch[key] = cached{perm}
+			return &mapIter{m: m, o: x, keys: out}
+		}
+		keys := m.orderKeys(ks)
 		return &mapIter{m: m, o: x, keys: keys}
 	case string, *BStr:
 		return &stringIter{m: m, s: x}
